@@ -171,3 +171,86 @@ func remainingText(thorough bool) string {
 	}
 	return t
 }
+
+// ---------------------------------------------------------------- time that passes before the request is sent
+
+// credsDim is one value of the dimension "the call uses per-RPC credentials
+// (grpc.PerRPCCredentials call option) whose GetRequestMetadata consumes this
+// much time before the request can be built". Delay < 0 = no credentials at
+// all; 0 = credentials that answer at once. The delay is an actuator only: the
+// oracle uses the instants recorded around GetRequestMetadata, not the number.
+type credsDim struct {
+	Label string
+	Delay time.Duration
+}
+
+var (
+	noCreds      = credsDim{"", -1}
+	instantCreds = credsDim{"instant", 0}
+	// above the 1 ms encoding granularity, one and two orders of magnitude
+	slowCredsQuick = []credsDim{{"3ms", 3 * time.Millisecond}, {"30ms", 30 * time.Millisecond}}
+	// thorough only, around the base durations of the quick tier
+	slowCredsExtra = []credsDim{{"300ms", 300 * time.Millisecond}}
+)
+
+// ---------------------------------------------------------------- caller's outgoing metadata
+
+// mdDim is one value of the dimension "the caller's outgoing metadata": Key ==
+// "" = no metadata at all.
+type mdDim struct {
+	Key  string
+	Vals []string
+}
+
+func (m mdDim) label() string {
+	if m.Key == "" {
+		return ""
+	}
+	return m.Key + "=" + strings.Join(m.Vals, ",")
+}
+
+const timeoutKey = "grpc-timeout"
+
+// Every remaining duration of the grammar (1 ns .. MaxInt64 ns) has entries
+// that denote less and entries that denote more than it (1n and 99999999H =
+// 11415 years bracket the whole range), entries that are not timeouts at all,
+// and two-valued entries in both orders.
+var mdGrammar = []mdDim{
+	{},
+	{"x-other", []string{"1H"}}, // a timeout-looking value under an unrelated key
+	{timeoutKey, []string{"1n"}},
+	{timeoutKey, []string{"1u"}},
+	{timeoutKey, []string{"1m"}},
+	{timeoutKey, []string{"20m"}},
+	{timeoutKey, []string{"1S"}},
+	{timeoutKey, []string{"1M"}},
+	{timeoutKey, []string{"1H"}},
+	{timeoutKey, []string{"99999999H"}},
+	{timeoutKey, []string{"0m"}},
+	{timeoutKey, []string{""}},
+	{timeoutKey, []string{"bogus"}},
+	{timeoutKey, []string{"-1S"}},
+	{timeoutKey, []string{"1n", "1H"}},
+	{timeoutKey, []string{"1H", "1n"}},
+}
+
+// the part of mdGrammar that is crossed with the slow credentials (every such
+// case costs its delay in wall time): none, shorter than everything, longer
+// than nearly everything
+var mdGrammarSlow = []mdDim{mdGrammar[0], mdGrammar[2], mdGrammar[8]}
+
+func credsText(thorough bool) string {
+	t := "credentials {none, answering at once, taking 3 ms, taking 30 ms"
+	if thorough {
+		t += ", taking 300 ms (base durations of the quick tier, no metadata only)"
+	}
+	return t + "}"
+}
+
+func mdText() string {
+	var l []string
+	for _, m := range mdGrammar[1:] {
+		l = append(l, m.label())
+	}
+	return "caller's outgoing metadata {none, " + strings.Join(l, " | ") + "}"
+}
